@@ -242,7 +242,7 @@ Proof.
   rewrite be_dec_1.
   replace (negb ((len a =? 4) || (len a =? 16))) with false
     by (destruct Hl as [-> | ->]; reflexivity).
-  obind. rewrite out_need_ok by (rewrite blen_app, <- len_blen; pose proof (blen_nonneg rest); lia).
+  obind. rewrite out_need_ok by (rewrite blen_app; rewrite len_blen; pose proof (blen_nonneg rest); lia).
   obind. rewrite out_alloc. apply out_take_app. reflexivity.
 Qed.
 
